@@ -149,7 +149,8 @@ PROPS = {
         "replay": c19_replay,
         "exhaustive": True,
         "trusted": ["go/packages + go/types constant evaluation under each GOOS/GOARCH (the translator's per-target rows); the linux/amd64 row is compared with the compiled package on every run, every row with `go build`/`go vet` in the thorough tier",
-                    "the installed kernel UAPI headers and gcc (oracle Gen.uapi); one hand-written oracle row: ENOSYS = 89 on linux/mips* (no MIPS headers installed), documented in Proofs/C19.lean",
+                    "the installed kernel UAPI headers and gcc (oracle Gen.uapi); one hand-written oracle row: ENOSYS = 89 on linux/mips* (no MIPS headers installed), documented in Proofs/C19.lean; the hand-written list GOARCH -> AUDIT_ARCH_* macro name (C19.auditMacroOfGoarch, thirteen ports) whose values come from linux/audit.h through gcc",
+                    "the probes for linux/386 (run natively) and js/wasm (run by node) are built with the verif tag: they compile three valid and sixteen defective fixed policies for each of the five tables through VerifSetArch and must print what this process computes",
                     "`no call expression in the body` is taken as `performs no system call` for the three stubs (the stub file declares nothing else and imports nothing)"],
         "assumptions": ["the target list is `go tool dist list` of the installed toolchain (go1.23.5: 49 pairs) in the thorough tier and a 14-target cross-section (9 linux ports incl. 2 MIPS, darwin, windows, freebsd, js/wasm, plan9) in the quick tier",
                         "targets are loaded with CGO_ENABLED=0; the two commands cannot be linked without cgo on android/386, android/amd64, android/arm, ios/* (toolchain restriction) — there the statements range over the library packages, which type-check on all targets",
